@@ -107,6 +107,27 @@ fn unix_stream(e: &'static Engine, workers: usize, wk: char, rk: char, len: usiz
 /// *created*, used and dropped by `k2` participants at the same time. The kernel hands out the lowest free descriptor
 /// numbers, so the new sockets get the numbers that connection 1 has just closed: whatever the drop still does with its
 /// number (deregistering from epoll) must not hit the new sockets.
+/// a loopback TCP address that refuses connections for as long as the returned descriptor is open
+fn reserved_dead_port() -> (std::net::SocketAddr, std::os::unix::io::OwnedFd) {
+    use std::os::unix::io::FromRawFd;
+    unsafe {
+        let fd = libc::socket(libc::AF_INET, libc::SOCK_STREAM | libc::SOCK_CLOEXEC, 0);
+        assert!(fd >= 0, "socket: {}", std::io::Error::last_os_error());
+        let guard = std::os::unix::io::OwnedFd::from_raw_fd(fd);
+        let mut sa: libc::sockaddr_in = std::mem::zeroed();
+        sa.sin_family = libc::AF_INET as libc::sa_family_t;
+        sa.sin_addr.s_addr = u32::from_ne_bytes([127, 0, 0, 1]);
+        sa.sin_port = 0;
+        let r = libc::bind(fd, &sa as *const _ as *const libc::sockaddr, std::mem::size_of::<libc::sockaddr_in>() as libc::socklen_t);
+        assert!(r == 0, "bind: {}", std::io::Error::last_os_error());
+        let mut len = std::mem::size_of::<libc::sockaddr_in>() as libc::socklen_t;
+        let r = libc::getsockname(fd, &mut sa as *mut _ as *mut libc::sockaddr, &mut len);
+        assert!(r == 0, "getsockname: {}", std::io::Error::last_os_error());
+        let port = u16::from_be(sa.sin_port);
+        (std::net::SocketAddr::from(([127, 0, 0, 1], port)), guard)
+    }
+}
+
 /// `failed_connect`: instead of dropping a socket of an old connection, the `k1` participant makes a TCP connect to a dead
 /// port: the refused connect closes and deregisters its fresh descriptor on its error path
 fn unix_fd_reuse(e: &'static Engine, workers: usize, k1: char, k2: char, failed_connect: bool) {
@@ -123,10 +144,9 @@ fn unix_fd_reuse(e: &'static Engine, workers: usize, k1: char, k2: char, failed_
         Some(b1)
     };
     // a port nobody listens on
-    let dead = {
-        let l = std::net::TcpListener::bind("127.0.0.1:0").unwrap();
-        l.local_addr().unwrap()
-    };
+    // (bound but never listening, and kept open: nobody else on the machine - in particular no execution running in
+    // parallel - can get this port while we expect it to refuse connections)
+    let (dead, _dead_guard) = reserved_dead_port();
     let d2 = payload(5);
     e.begin();
     let mut hs = vec![];
